@@ -210,15 +210,21 @@ func checkC19(c C19Case, o *Obs) error {
 		// "Works for trees deeper than any recursion limit": while the traversal runs, the
 		// goroutine stack limit is lowered to 256 KiB - ample for an iterative traversal of any
 		// depth, fatal ("stack overflow") for one that recurses once per level of a deep tree.
-		if p := catch(func() {
-			it := tc.it()
+		// The traversal runs on a fresh goroutine (whose stack starts small; the limit is only
+		// checked when a stack has to grow, and this goroutine's stack is already large after the
+		// recursive reference traversals).
+		it := tc.it()
+		done := make(chan any, 1)
+		go func() {
+			defer func() { done <- recover() }()
 			old := debug.SetMaxStack(256 << 10)
 			defer debug.SetMaxStack(old)
 			it(func(n *newick.Node) bool {
 				got = append(got, n)
 				return len(got) <= len(nodes)+1
 			})
-		}); p != nil {
+		}()
+		if p := <-done; p != nil {
 			return fmt.Errorf("%s panicked: %v", tc.name, p)
 		}
 		if len(got) != len(tc.want) {
